@@ -3,11 +3,13 @@
 // gen_c26 reads the access-control source of /repo with go/ast and writes
 // coq/Generated/C26Tables.v:
 //
-//   - api_method: one constructor per constant of internal/utils/apimethod (with its string);
-//   - relation: one constructor per `CanCall*` constant of internal/authz/authz.go (with its string);
-//   - relation_of: the switch of (*Authorizer).getRelation, clause by clause (a method that no
-//     clause mentions falls into `default`, which must return an error => None);
-//   - max_modules_in_request: the constant MaxModulesInRequest;
+//   - gen_api_methods: the constants of internal/utils/apimethod (identifier, string value);
+//   - gen_relations: the `CanCall*` constants of internal/authz/authz.go (identifier, string value);
+//   - gen_relation_table: the switch of (*Authorizer).getRelation, clause by clause (a method that
+//     no clause mentions falls into `default`, which must return an error => None);
+//   - gen_max_modules: the constant MaxModulesInRequest;
+//     (plain data, no inductive types: the file compiles whatever the source looks like, and the
+//     model Sec/Authz.v does not depend on it; Sec/AuthzProofs.v compares the two)
 //   - c26_handlers: every RPC handler method of *Server in pkg/server/*.go (exported, one
 //     parameter whose type is `*pkg.XxxRequest`), whether its body reads `req.GetStoreId()`,
 //     and the ordered list of its interesting calls:
@@ -912,58 +914,33 @@ func main() {
 	b.WriteString("(* GENERATED by harness/cmd/gen_c26 from the Go source of /repo on every bin/check run.\n   Do not edit: the file is overwritten. *)\n")
 	b.WriteString("From Coq Require Import List String NArith.\nImport ListNotations.\nLocal Open Scope string_scope.\nLocal Open Scope N_scope.\n\n")
 
-	b.WriteString("(* internal/utils/apimethod *)\nInductive api_method :=\n")
-	for _, m := range methods {
-		fmt.Fprintf(&b, "| M_%s\n", m.name)
-	}
-	b.WriteString(".\n\nDefinition all_api_methods : list api_method :=\n  [")
+	b.WriteString("(* internal/utils/apimethod: (Go identifier, string value as bytes), in source order *)\nDefinition gen_api_methods : list (string * list N) :=\n  [")
 	for i, m := range methods {
 		if i > 0 {
-			b.WriteString("; ")
+			b.WriteString(";\n   ")
 		}
-		b.WriteString("M_" + m.name)
+		fmt.Fprintf(&b, "(%s, %s)", coqStr(m.name), coqBytes(m.val))
 	}
-	b.WriteString("].\n\nDefinition api_method_name (m : api_method) : string :=\n  match m with\n")
-	for _, m := range methods {
-		fmt.Fprintf(&b, "  | M_%s => %s\n", m.name, coqStr(m.val))
-	}
-	b.WriteString("  end.\n\nDefinition api_method_bytes (m : api_method) : list N :=\n  match m with\n")
-	for _, m := range methods {
-		fmt.Fprintf(&b, "  | M_%s => %s\n", m.name, coqBytes(m.val))
-	}
-	b.WriteString("  end.\n\n(* the Go identifier of the constant (used by the handler table) *)\nDefinition api_method_ident (m : api_method) : string :=\n  match m with\n")
-	for _, m := range methods {
-		fmt.Fprintf(&b, "  | M_%s => %s\n", m.name, coqStr(m.name))
-	}
-	b.WriteString("  end.\n\n(* internal/authz/authz.go: relation constants *)\nInductive relation :=\n")
-	for _, r := range relations {
-		fmt.Fprintf(&b, "| R_%s\n", r.name)
-	}
-	b.WriteString(".\n\nDefinition all_relations : list relation :=\n  [")
+	b.WriteString("].\n\n(* internal/authz/authz.go: the CanCall* constants (Go identifier, string value as bytes) *)\nDefinition gen_relations : list (string * list N) :=\n  [")
 	for i, r := range relations {
 		if i > 0 {
-			b.WriteString("; ")
+			b.WriteString(";\n   ")
 		}
-		b.WriteString("R_" + r.name)
+		fmt.Fprintf(&b, "(%s, %s)", coqStr(r.name), coqBytes(r.val))
 	}
-	b.WriteString("].\n\nDefinition relation_name (r : relation) : string :=\n  match r with\n")
-	for _, r := range relations {
-		fmt.Fprintf(&b, "  | R_%s => %s\n", r.name, coqStr(r.val))
-	}
-	b.WriteString("  end.\n\nDefinition relation_bytes (r : relation) : list N :=\n  match r with\n")
-	for _, r := range relations {
-		fmt.Fprintf(&b, "  | R_%s => %s\n", r.name, coqBytes(r.val))
-	}
-	b.WriteString("  end.\n\n(* Authorizer.getRelation: the switch, clause by clause; None = the default clause (error) *)\nDefinition relation_of (m : api_method) : option relation :=\n  match m with\n")
-	for _, m := range methods {
+	b.WriteString("].\n\n(* Authorizer.getRelation: per API method (string value) the string value of the relation its\n   clause returns; None = no clause mentions the method, i.e. the default clause (error) *)\nDefinition gen_relation_table : list (list N * option (list N)) :=\n  [")
+	for i, m := range methods {
+		if i > 0 {
+			b.WriteString(";\n   ")
+		}
 		if r, ok := relOf[m.name]; ok {
-			fmt.Fprintf(&b, "  | M_%s => Some R_%s\n", m.name, r)
+			fmt.Fprintf(&b, "(%s, Some %s)", coqBytes(m.val), coqBytes(consts[r]))
 		} else {
-			fmt.Fprintf(&b, "  | M_%s => None\n", m.name)
+			fmt.Fprintf(&b, "(%s, None)", coqBytes(m.val))
 		}
 	}
-	b.WriteString("  end.\n\n")
-	fmt.Fprintf(&b, "Definition max_modules_in_request : N := %d.\n\n", maxModules)
+	b.WriteString("].\n\n")
+	fmt.Fprintf(&b, "Definition gen_max_modules : N := %d.\n\n", maxModules)
 	for _, k := range []string{"StoreType", "ModuleType", "ApplicationType", "SystemType", "SystemRelationOnStore", "RootSystemID"} {
 		v, ok := consts[k]
 		if !ok {
